@@ -95,7 +95,7 @@ def mutate(o, a, v):
         x.add(77)
 
 
-def make_h(fam, cname, nops):
+def make_h(fam, cname, nops, fop=None):
     cls = FAM[fam][cname]
 
     def h(arg: bool, aa: int, v: int, op1: int, a1: int, op2: int, a2: int, op3: int, a3: int) -> str:
@@ -111,6 +111,8 @@ def make_h(fam, cname, nops):
         peer = cls()
         live = [peer]
         defaults = class_defaults(cls)
+        if fop is not None:
+            assume(op1 == fop)
         for op, ai in [(op1, a1), (op2, a2), (op3, a3)][:nops]:
             assume(0 <= op <= 6)
             a = pick(ATTRS, ai)
@@ -192,6 +194,6 @@ def obligations(tier):
     nops = 2 if tier == "quick" else 3
     T = 300 if tier == "quick" else 1800
     for fam in ("eager",) if tier == "quick" else ("eager", "lazy"):
-        for cname in ("D", "SD", "PD"):
-            obs.append(Ob(f"C08.{fam}.{cname}.h{nops}", make_h(fam, cname, nops), _warm(nops), f"class {cname} ({fam}): attributes declared with a mutable literal, Attr(default=), Attr(default_factory=), dataclasses.field(default_factory=) (dict and set), nested spec default, no default{'; overrides in a spec subclass' if cname == 'SD' else ''}{'; overrides in a plain subclass' if cname == 'PD' else ''}; constructor argument given or not (symbolic), history of {nops} operations with symbolic selectors over 7 operation kinds x 6 attributes", expect={"ok"}, timeout=T))
+        for cname, fop in [(c, f) for c in ("D", "SD", "PD") for f in range(7)]:
+            obs.append(Ob(f"C08.{fam}.{cname}.h{nops}.first-op{fop}", make_h(fam, cname, nops, fop), [w for w in _warm(nops) if w[3] == fop], f"class {cname} ({fam}): attributes declared with a mutable literal, Attr(default=), Attr(default_factory=), dataclasses.field(default_factory=) (dict and set), nested spec default, no default{'; overrides in a spec subclass' if cname == 'SD' else ''}{'; overrides in a plain subclass' if cname == 'PD' else ''}; constructor argument given or not (symbolic), history of {nops} operations (first operation kind fixed per shard: {fop}) with symbolic selectors over 7 operation kinds x 6 attributes", expect={"ok"}, timeout=T))
     return obs
